@@ -181,4 +181,55 @@ PROPS = {
         "assumptions": ["a different seed gives a different mask only under the PRF assumption on keyed Blake2b",
                         "verdict independence is argued from the seed-free residual/weight specifications; an Err-characterisation of verify is not proved"],
     },
+    "C13": {
+        "units": ["prove", "nonce", "transcripts"],
+        "design_ref": "DESIGN.md section 7, C13",
+        "technique": "contract-based deductive verification (Verus): ghost-state model of the transcript RNG; provenance of every nonce as loop invariants / tagged assertions on the real prove_with_rng; random_not_zero verified against its rejection loop",
+        "claim": "Proved on the real prover: without a recovery seed, alpha_k, every round's dL_k and dR_k, d_k, eta_k, and always r and s, are successive first-nonzero draws "
+                 "(Scalar::random_not_zero, itself verified: nonzero, value = the first nonzero output of the stream, counter advanced past it) of the transcript RNG - so they are "
+                 "nonzero and come from strictly increasing counters of one keyed stream, re-keyed after every absorbed prover message; with a seed, alpha_k, dL_jk, dR_jk, d_k, eta_k "
+                 "are exactly nonce(seed, label, j?, k) for the documented labels and indices while r and s are still RNG draws. Not decidable: that distinct draws or distinct hash "
+                 "inputs give distinct values, and 'differ between two runs' (two-run, probabilistic). The position of each nonce inside A, L_j, R_j, A1, B as a multiscalar "
+                 "expression is not yet a stated obligation.",
+        "assumptions": ["merlin TranscriptRng outputs are an uninterpreted function of (key, counter); value-level distinctness is the PRF assumption",
+                        "seed-derived nonces are hash outputs and not provably nonzero"],
+    },
+    "C14": {
+        "units": ["transcripts", "prove"],
+        "design_ref": "DESIGN.md section 7, C14",
+        "technique": "contract-based deductive verification (Verus): ghost key of merlin's transcript RNG (absorbed log, witness rekey bytes, external draw); real RangeProofTranscript and prove_with_rng proved to rekey with the serialised witness and to rebuild after every absorption",
+        "claim": "Proved: RangeProofTranscript::new serialises the witness as le64(v_j) || bytes(r_j0) || ... per opening, in order, and every RNG it builds has the ghost key "
+                 "(current transcript log, [(\"witness\", those bytes)], draw from the external RNG); challenges_y_z, challenge_round_e and challenge_final_e rebuild the RNG from "
+                 "the updated log (the new message included) before drawing the challenge; in prove_with_rng the RNG key carries the witness bytes at every draw, every RNG-derived "
+                 "nonce is drawn from range_proof_transcript.as_mut_rng() (the external rng is mutably borrowed by the transcript for its whole lifetime, so Rust's borrow rules "
+                 "exclude any other use). Assumed: that this keyed function is a PRF in the witness even when the external RNG output is constant (merlin's design claim).",
+        "assumptions": ["merlin's rekey_with_witness_bytes / finalize are modelled by the ghost key; PRF security in the witness key is assumed",
+                        "injectivity of the witness serialisation for a fixed extension degree is not separately proved"],
+    },
+    "C01": {
+        "units": ["prove", "verify", "ctors", "commit"],
+        "design_ref": "DESIGN.md section 7, C01",
+        "technique": "contract-based deductive verification (Verus): prover totality on valid witnesses, output shape agreement with the verifier's shape checks, shared padding contract; the algebraic completeness of the folding argument is explicitly undecided",
+        "claim": "Decided part: for every statement built through the validating constructors and every valid witness, prove_with_rng returns a proof unless the transcript rejects "
+                 "(identity point or zero challenge: ProofError::VerificationFailed) - every other error, index, overflow and multiscalar-length obligation is proved unreachable for "
+                 "all bit lengths, aggregation factors <= capacity, extension degrees, values (0, 2^n-1, value == promise included), seeded or not, any RNG; the proof it returns has "
+                 "li.len() == ri.len() == log2(n*m) and d1.len() == degree, exactly what the verifier's shape checks (proved in unit verify) demand, and both sides compute the same "
+                 "padding for every capacity >= m. UNDECIDED, stated as such: that the messages produced by the folding loop satisfy the verifier's equation (algebraic "
+                 "completeness of the weighted-inner-product argument); a change that only breaks the folding algebra is not detected by the deductive check.",
+        "assumptions": ["algebraic completeness of the folding rounds is not proved (weeks of work; named, not approximated)",
+                        "'for whatever RNG' holds up to the transcript-rejection event (probability about 2^-250 per challenge)"],
+    },
+    "C19": {
+        "units": ["transcripts", "nonce", "codec"],
+        "design_ref": "DESIGN.md section 7, C19",
+        "technique": "contract-based deductive verification (Verus): the released wire format written once as specification functions (transcript layout, nonce KDF byte layout, proof byte layout); the real code proved to conform",
+        "claim": "Conformance to the frozen 0.4.0 wire specification as written in /verif/spec: the transcript layout full_log (domain separator, labels H, G, N, T, M, Ci, "
+                 "'vi - minimum_value', A, y, z, L, R, e, A1, B, r1, s1, d1; order; 8-byte LE integers; 32-byte encodings), the nonce KDF input layout (0x00 || seed || ['j' || le32(j)] "
+                 "|| ['k' || le32(k)], label as Blake2b persona, empty salt, wide reduction) and the proof byte layout (degree byte, d1, A, A1, B, r1, s1, interleaved L/R). Any change "
+                 "of a label, hash input, index encoding or absorption order fails a named obligation. NOT decided: that recorded 0.4.0 proofs verify and that an independent "
+                 "implementation interoperates (replaying vectors is testing; there is no second implementation to put under contract); generator derivation labels "
+                 "(GeneratorsChain, ristretto.rs) are outside the units under contract.",
+        "assumptions": ["the specification functions were transcribed from the 0.4.0 sources and the RFC; agreement with recorded vectors is not checked here",
+                        "generator derivation (SHAKE256 chains, SHA3-512 masking basepoints) is not under contract"],
+    },
 }
